@@ -120,6 +120,8 @@ EDITS = {
         ("uv02", RT + "vm.rs", "                        *upv = UpValue::Closed(ov_raw.to_vec(), is_closure);\n                        is_closure.then_some(ov_raw[0])", "                        *upv = UpValue::Closed(ov_raw.to_vec(), is_closure);\n                        Some(ov_raw[0])", "verus", "upvalues"),
         ("uv03", RT + "vm.rs", "                        UpValue::Closed(data, true) => Some(data[0]),", "                        UpValue::Closed(data, _) => Some(data[0]),", "verus", "upvalues"),
         ("uv04", RT + "vm.rs", "                        *upv = UpValue::Closed(ov_raw.to_vec(), is_closure);", "                        *upv = UpValue::Closed(ov_raw.to_vec(), false);", "verus", "upvalues"),
+        ("rt01", "crates/lib/mimium-lang/src/runtime/vm.rs", "                    let _ = self.return_general(iret, nret);\n                    self.release_open_closures(&local_closures);\n", "                    let _ = self.return_general(iret, nret);\n", "verus", "closures"),
+        ("rt02", "crates/lib/mimium-lang/src/runtime/vm.rs", "                    self.release_open_closures(&local_closures);\n                    self.release_heap_closures(&local_heap_closures);\n                    return 0;", "                    self.release_heap_closures(&local_heap_closures);\n                    self.release_open_closures(&local_closures);\n                    return 0;", "verus", "closures"),
         ("bl01", "crates/lib/mimium-lang/src/runtime/vm.rs", "                    heap_obj.data[..inner_size as usize].copy_from_slice(&data);", "                    heap_obj.data[..inner_size as usize].copy_from_slice(&data);\n                    heap_obj.refcount = 1;", "verus", "closures"),
         ("bl02", "crates/lib/mimium-lang/src/runtime/vm.rs", "                    let data: Vec<u64> = heap_obj.data[..inner_size as usize].to_vec();\n                    self.set_stack_range(dst as i64, &data);", "                    let data: Vec<u64> = heap_obj.data[..inner_size as usize].to_vec();\n                    self.set_stack_range(dst as i64, &data);\n                    heap::heap_release(&mut self.heap, heap_idx);", "verus", "closures"),
         ("us10", "crates/lib/mimium-lang/src/runtime/vm.rs", "                    Self::clone_usersum_recursive(&value_vec, &ty, &mut self.heap);", "                    if value_size > 1 { Self::clone_usersum_recursive(&value_vec, &ty, &mut self.heap); }", "verus", "usersum"),
